@@ -57,6 +57,7 @@ type service struct {
 	done   chan error
 	addr   string
 	yaml   []byte
+	db     *sql.DB // the service's own handle (durable services), observed through Stats only
 }
 
 func (s *service) persistence() (persistence.LogStatePersistence, func()) {
@@ -68,6 +69,7 @@ func (s *service) persistence() (persistence.LogStatePersistence, func()) {
 		panic(err)
 	}
 	db.SetMaxOpenConns(1)
+	s.db = db
 	return psql.NewPersistence(db), func() { db.Close() }
 }
 
@@ -169,6 +171,7 @@ func main() {
 	run.Assume("feeders poll sequentially per log: when fetch K+1 after a publication has been answered, K full feed cycles have completed", "size-0 first checkpoints are avoided (known finding F2)", "Rekor, Pixel and serverless feeders are not served from generated trees (C17/C19 cover their start-up and hostile responses)")
 	run.Floor("growth_steps", 60)
 	run.Floor("restarts", 2)
+	run.Floor("db_lock_episodes", 1)
 	run.Floor("fork_observations", 2)
 	run.Floor("feeder:sumdb", 10)
 	run.Floor("feeder:tiles", 10)
@@ -252,7 +255,9 @@ func oneService(run *ev.Run, unit int64, r *rand.Rand, dir string) {
 		}
 	}
 	var trace []string
+	failed := false
 	fail := func(key, what string, extra map[string]any) {
+		failed = true
 		extra["trace"], extra["storage"], extra["yaml"] = trace, storage, string(s.yaml)
 		run.Violate(key, what, unit, extra)
 	}
@@ -269,14 +274,34 @@ func oneService(run *ev.Run, unit int64, r *rand.Rand, dir string) {
 			state[l] = &st{text: text, since: l.stub.Fetches()}
 		}
 		deadline := time.Now().Add(90 * time.Second)
+		lastActivity, lastFetches := time.Now(), -1
 		for {
 			all := true
+			total := 0
+			for _, l := range s.logs {
+				total += l.stub.Fetches()
+			}
+			if total != lastFetches {
+				lastFetches, lastActivity = total, time.Now()
+			}
+			if s.db != nil && time.Since(lastActivity) > 30*time.Second {
+				// Nothing has moved for 60 poll intervals: no stub was polled and no read was answered.
+				// Time only triggers the inspection; the verdict is structural: every pooled connection
+				// is in use, requests are queued for one, and nobody outside the service holds the file.
+				if st := s.db.Stats(); st.MaxOpenConnections > 0 && st.InUse >= st.MaxOpenConnections && st.WaitCount > 0 {
+					fail("service_wedged;event="+event, fmt.Sprintf("the service stopped polling and answering reads: its database pool has %d of %d connections in use and %d requests have queued for one (a transaction left open?)", st.InUse, st.MaxOpenConnections, st.WaitCount), map[string]any{})
+					return false
+				}
+			}
 			for _, l := range s.logs {
 				x := state[l]
 				if x.ok {
 					continue
 				}
 				code, raw := s.served(l.id)
+				if code != 0 {
+					lastActivity = time.Now()
+				}
 				if code == 200 && s.matches(l, raw, x.text) {
 					x.ok = true
 					n := l.stub.Fetches() - x.since
@@ -375,6 +400,46 @@ func oneService(run *ev.Run, unit int64, r *rand.Rand, dir string) {
 			okSoFar = converge("after_restart")
 		}
 	}
+	// another connection (a backup job, say) holds the database's write lock for a few poll cycles while
+	// the logs grow; once it lets go the service must catch up within the usual bound
+	if okSoFar && durable {
+		other, err := sql.Open("sqlite3", s.dbPath)
+		if err == nil {
+			other.SetMaxOpenConns(1)
+			_, err = other.Exec("BEGIN IMMEDIATE")
+		}
+		if err != nil {
+			run.Count("db_lock_not_obtained")
+		} else {
+			base := map[*svcLog]int{}
+			for _, l := range s.logs {
+				l.size += 1 + uint64(r.IntN(5))
+				l.stub.Publish(nil, l.size)
+				base[l] = l.stub.Fetches()
+			}
+			held := time.Now()
+			for time.Since(held) < 4*time.Second {
+				n := 1 << 30
+				for _, l := range s.logs {
+					if d := l.stub.Fetches() - base[l]; d < n {
+						n = d
+					}
+				}
+				if n >= 2 {
+					break
+				}
+				time.Sleep(20 * time.Millisecond)
+			}
+			_, _ = other.Exec("ROLLBACK")
+			trace = append(trace, fmt.Sprintf("another connection held the write lock for %d ms while every log grew", time.Since(held).Milliseconds()))
+			run.Count("db_lock_episodes")
+			run.Count("evaluations")
+			okSoFar = converge("after_db_lock")
+		}
+		if other != nil {
+			other.Close()
+		}
+	}
 	// fork: one log starts serving a history that does not extend the witnessed one
 	if okSoFar {
 		l := s.logs[r.IntN(len(s.logs))]
@@ -441,7 +506,7 @@ func oneService(run *ev.Run, unit int64, r *rand.Rand, dir string) {
 		converge("beside_forked_log")
 		s.logs = keep
 	}
-	if err := s.stop(closeDB); err != nil {
+	if err := s.stop(closeDB); err != nil && !failed {
 		run.Inconclusive(err.Error())
 	}
 	if unit < 2 {
